@@ -79,6 +79,7 @@ func main() {
 	sample := flag.Int("sample", 2, "number of passing runs to print with their trace")
 	traces := flag.Int("traces", 0, "number of passing runs whose full trace is exported for model conformance (K2)")
 	pb1 := flag.Int("pb1", 0, "single-preemption exploration: for this many configurations, every schedule `first runs k steps, then second runs as long as it can, then the rest` for all ordered pairs of threads and all k")
+	fixed := flag.String("config", "", "explore this configuration only (with -runs or -pb1)")
 	only := flag.String("only", "", "a scenario shared by several properties prefixes its problems \"Cnn:\"; keep this property's (and unprefixed ones)")
 	flag.Parse()
 	sc, ok := scenarios[*name]
@@ -186,6 +187,9 @@ func main() {
 		seen := map[string]bool{}
 		for c, tries := 0, 0; c < *pb1 && tries < 20**pb1 && total < *limit; tries++ {
 			cfg := sc.Config(r, false)
+			if *fixed != "" {
+				cfg = *fixed
+			}
 			if seen[cfg] {
 				continue
 			}
@@ -237,6 +241,9 @@ func main() {
 	} else {
 		for i := 0; i < *runs; i++ {
 			cfg := sc.Config(r, false)
+			if *fixed != "" {
+				cfg = *fixed
+			}
 			record(runOnce(*name, sc, cfg, r.Int63(), nil, nil, true))
 		}
 	}
